@@ -6,6 +6,7 @@ package main
 //	f <builtin> <arg>...            builtin len / chr / ord / list / repr               (through py.Call)
 //	o <operator> <a> <b>            in / lt le eq ne gt ge / mul / rmul / add / getitem (py API the VM uses)
 //	rt <value>                      compiled program: r = repr(x); y = eval(r); V = (y == x and same types), R = r
+//	rta / rts <value>               the same with ascii(x) (r must also be pure ASCII) / str(x)
 //	lit <escaped source text>       compiled program `x = <text>`: the value the lexer + DecodeEscape produce
 //	ev <expression>                 (probing only) compiled program: repr of the expression's value
 //
@@ -15,7 +16,7 @@ package main
 //	y:<hex>   bytes
 //	i<dec>    int (py.Int when it fits int64, else *py.BigInt)
 //	n         None          t0/t1 bool        f<16 hex digits> float bits
-//	T<k> v1 .. vk   tuple   L<k> v1 .. vk   list   S <start> <stop> <step>   slice object
+//	T<k> v1 .. vk   tuple   L<k> v1 .. vk   list   D<k> key1 v1 .. keyk vk   dict (str keys)   S <start> <stop> <step>   slice object
 //
 // Output V: the same encoding (lists as `[a,b]`, tuples as `(a,b)`), `E:<Class>` for exceptions and
 // `PANIC` for a Go panic.
@@ -122,6 +123,14 @@ func (r *c14Reader) value() py.Object {
 	case t[0] == 'f':
 		v, _ := strconv.ParseUint(t[1:], 16, 64)
 		return py.Float(math.Float64frombits(v))
+	case t[0] == 'D':
+		k, _ := strconv.Atoi(t[1:])
+		d := py.StringDict{}
+		for j := 0; j < k; j++ {
+			key := r.value().(py.String)
+			d[string(key)] = r.value()
+		}
+		return d
 	case t[0] == 'T' || t[0] == 'L':
 		k, _ := strconv.Atoi(t[1:])
 		items := make([]py.Object, 0, k)
@@ -210,6 +219,18 @@ func c14Same(a, b py.Object) bool {
 	case py.Float:
 		y, ok := b.(py.Float)
 		return ok && math.Float64bits(float64(x)) == math.Float64bits(float64(y))
+	case py.StringDict:
+		y, ok := b.(py.StringDict)
+		if !ok || len(x) != len(y) {
+			return false
+		}
+		for k, v := range x {
+			w, ok := y[k]
+			if !ok || !c14Same(v, w) {
+				return false
+			}
+		}
+		return true
 	case py.Tuple:
 		y, ok := b.(py.Tuple)
 		if !ok || len(x) != len(y) {
@@ -312,15 +333,24 @@ func c14Handle(line string) (v string, r string) {
 		default:
 			res, err = c14Cmp[f[1]](a, b)
 		}
-	case "rt":
+	case "rt", "rta", "rts":
+		// rt: repr, rta: ascii (the text must be ASCII too), rts: str (of a container = its repr)
 		rd.i = 1
 		x := rd.value()
+		fn := map[string]string{"rt": "repr", "rta": "ascii", "rts": "str"}[f[0]]
 		var g py.StringDict
-		g, err = c14Run("r = repr(x)\ny = eval(r)\n", py.StringDict{"x": x})
+		g, err = c14Run("r = "+fn+"(x)\ny = eval(r)\n", py.StringDict{"x": x})
 		rs := ""
 		if g != nil {
 			if s, ok := g["r"].(py.String); ok {
 				rs = c14Show(string(s))
+				if f[0] == "rta" {
+					for i := 0; i < len(s); i++ {
+						if s[i] >= 0x80 {
+							return "False:nonascii", rs
+						}
+					}
+				}
 			}
 		}
 		if err != nil {
